@@ -3,6 +3,7 @@ package main
 // Value descriptors: parse (build a Go value of a given reflect.Type), dump, and type-directed generation.
 
 import (
+	"unicode/utf8"
 	"encoding/hex"
 	"fmt"
 	"math"
@@ -308,6 +309,9 @@ func ifaceChoices(jsonSafe bool) []reflect.Type {
 	return ts
 }
 
+var bigLens = []int{23, 24, 25, 31, 32, 33, 63, 64, 65, 127, 128, 255, 256, 257, 300, 1000}
+var bigCounts = []int{16, 17, 23, 24, 25, 32, 33, 64, 65, 100, 128, 255, 256, 257, 300}
+
 type genOpts struct {
 	jsonSafe  bool // no byte strings, finite floats, valid UTF-8
 	depth     int
@@ -349,6 +353,19 @@ func genValue(r *rng, t reflect.Type, o genOpts) string {
 		return fmt.Sprintf("f%016x", math.Float64bits(f))
 	case reflect.String:
 		s := genStrings[r.intn(len(genStrings))]
+		if r.chance(1, 150) {
+			// long text: lengths around the fixed buffer sizes found in codecs (24, 32, 64, 256, 4 KiB, 64 KiB); ASCII or
+			// two-byte characters (so that a character may straddle a buffer boundary)
+			n := bigLens[r.intn(len(bigLens))]
+			if r.chance(1, 12) {
+				n = []int{4095, 4096, 4097, 65535, 65536, 70000}[r.intn(6)]
+			}
+			unit := []string{"a", "k", "\u00e9", "z\u00e9"}[r.intn(4)]
+			s = strings.Repeat(unit, n/len(unit)+1)[:n]
+			for len(s) > 0 && !utf8.ValidString(s) {
+				s = s[:len(s)-1]
+			}
+		}
 		if o.jsonSafe && s == "\xff" {
 			s = "ff"
 		}
@@ -358,6 +375,9 @@ func genValue(r *rng, t reflect.Type, o genOpts) string {
 			if r.chance(1, 4) || o.jsonSafe {
 				return "xn"
 			}
+			if r.chance(1, 100) {
+				return "x" + hexStr(bigLens[r.intn(len(bigLens))], byte(r.intn(256)))
+			}
 			return "x" + hexStr(r.intn(5), byte(r.intn(256)))
 		}
 		if r.chance(1, 5) || o.depth <= 0 && r.chance(1, 2) {
@@ -366,6 +386,13 @@ func genValue(r *rng, t reflect.Type, o genOpts) string {
 		n := r.intn(4)
 		if o.depth <= 0 {
 			n = 0
+		} else if r.chance(1, 80) {
+			// many elements (counts around one-byte / two-byte length heads and power-of-two buffer sizes), flat ones
+			n = bigCounts[r.intn(len(bigCounts))]
+			d.depth = 0
+			if k := t.Elem().Kind(); k == reflect.Struct || k == reflect.Interface {
+				d.depth = 1
+			}
 		}
 		parts := make([]string, n)
 		for i := range parts {
@@ -393,6 +420,23 @@ func genValue(r *rng, t reflect.Type, o genOpts) string {
 		if o.depth <= 0 {
 			n = 0
 		}
+		if o.depth > 0 && t.Key().Kind() == reflect.String && r.chance(1, 80) {
+			// many keys, most of them of equal length (ties for a length-first order, long runs for any sort)
+			n = bigCounts[r.intn(len(bigCounts))]
+			d.depth = 0
+			if k := t.Elem().Kind(); k == reflect.Struct || k == reflect.Interface {
+				d.depth = 1
+			}
+			var parts []string
+			for i := 0; i < n; i++ {
+				key := fmt.Sprintf("k%03d", (i*37)%n)
+				if i%11 == 0 {
+					key = fmt.Sprintf("q%d", (i*37)%n)
+				}
+				parts = append(parts, "s"+hex.EncodeToString([]byte(key))+"="+genValue(r, t.Elem(), d))
+			}
+			return "M{" + strings.Join(parts, ",") + "}"
+		}
 		seen := map[string]bool{}
 		var parts []string
 		for i := 0; i < n; i++ {
@@ -414,10 +458,10 @@ func genValue(r *rng, t reflect.Type, o genOpts) string {
 			return "n"
 		}
 		if t.NumMethod() > 0 {
-			ct := []reflect.Type{reflect.TypeOf(Circle{}), reflect.TypeOf(Square{}), reflect.TypeOf(Blob{})}[r.intn(3)]
+			ct := []reflect.Type{reflect.TypeOf(Circle{}), reflect.TypeOf(Square{}), reflect.TypeOf(Blob{}), reflect.TypeOf(Big9a{}), reflect.TypeOf(Big9b{})}[r.intn(5)]
 			if !o.roundtrip && r.chance(1, 8) {
-				// a member held by pointer (nil or not) is not a member
-				ct = reflect.TypeOf((*Circle)(nil))
+				// a member held by pointer (nil or not) is not a member; nor is an unnamed struct that merely embeds one
+				ct = []reflect.Type{reflect.TypeOf((*Circle)(nil)), reflect.TypeOf(struct{ Circle }{})}[r.intn(2)]
 			}
 			return fmt.Sprintf("I%d:%s", tid(ct), genValue(r, ct, d))
 		}
@@ -434,7 +478,7 @@ func genValue(r *rng, t reflect.Type, o genOpts) string {
 				cs = append(cs, reflect.TypeOf(TrBytes{}))
 			}
 			if o.tagged && o.cbor {
-				cs = append(cs, reflect.TypeOf(Inner{}), reflect.TypeOf(TrNum(0)), reflect.TypeOf(TrBytes{}), reflect.TypeOf(TrSq{}), reflect.TypeOf(TrOpt{}), reflect.TypeOf(TrW{}), reflect.TypeOf(TrN{}), reflect.TypeOf(Digest{}), reflect.TypeOf(TwoMaps{}), reflect.TypeOf(Blob{}), reflect.TypeOf(Blob{}))
+				cs = append(cs, reflect.TypeOf(Inner{}), reflect.TypeOf(TrNum(0)), reflect.TypeOf(TrBytes{}), reflect.TypeOf(TrSq{}), reflect.TypeOf(TrOpt{}), reflect.TypeOf(TrW{}), reflect.TypeOf(TrN{}), reflect.TypeOf(Digest{}), reflect.TypeOf(TwoMaps{}), reflect.TypeOf(Blob{}), reflect.TypeOf(Blob{}), reflect.TypeOf(TrIn{}), reflect.TypeOf(TrComp{}), reflect.TypeOf(Big9a{}), reflect.TypeOf(Big9b{}), reflect.TypeOf(Wide{}), hugeT130)
 			}
 		}
 		ct := cs[r.intn(len(cs))]
@@ -447,4 +491,29 @@ func genValue(r *rng, t reflect.Type, o genOpts) string {
 		return "S(" + strings.Join(parts, ",") + ")"
 	}
 	return "n"
+}
+
+// deepValues: values nested d levels deep for the recursive zoo types (records through pointers and slices, untyped
+// slices and maps), with something at every level
+func deepValues(d int) []struct {
+	t  reflect.Type
+	vd string
+} {
+	it := tid(reflect.TypeOf(int(0)))
+	st := tid(reflect.TypeOf([]interface{}{}))
+	mt := tid(reflect.TypeOf(map[string]interface{}{}))
+	rec, sl, mp := "S(i0,n,n)", "[]", "M{}"
+	for k := 1; k <= d; k++ {
+		if k%2 == 0 {
+			rec = fmt.Sprintf("S(i%d,P%s,n)", k, rec)
+		} else {
+			rec = fmt.Sprintf("S(i%d,n,[S(i-%d,n,n),%s])", k, k, rec)
+		}
+		sl = fmt.Sprintf("[I%d:i%d,I%d:%s]", it, k, st, sl)
+		mp = fmt.Sprintf("M{s61=I%d:i%d,s6b=I%d:%s}", it, k, mt, mp)
+	}
+	return []struct {
+		t  reflect.Type
+		vd string
+	}{{reflect.TypeOf(Rec{}), rec}, {reflect.TypeOf([]interface{}{}), sl}, {reflect.TypeOf(map[string]interface{}{}), mp}}
 }
